@@ -24,18 +24,18 @@ LANGS = {
     "FLOAT": FLOAT,
     "COMPLEX": ("seq", [("opt", ("lit", "-")), FLOAT, SIGN, FLOAT, ("lit", "j")]),
 }
-CONTEXT = [ord(c) for c in ",)] \n"]
+CONTEXT = [ord(c) for c in ")] \n"]   # plus ", " (the serialiser always writes a blank after a comma)
 
 
 def lemma(rep, M):
     lg = langmod.Lang()
     rules = [(n, t, m) for (n, t, m) in lg.lexer_A() if t is not None]
-    cs = [z3.BitVec("c%d" % i, 21) for i in range(M + 1)]
+    cs = [z3.BitVec("c%d" % i, 21) for i in range(M + 2)]
     sol = z3.Solver()
     for c in cs:
         sol.add(z3.ULE(c, nfa.MAXCP))
     acc = {n: nfa.unroll(m, cs) for (n, t, m) in rules}
-    anyk = [z3.Or([acc[n][k] for (n, _, _) in rules]) for k in range(M + 2)]
+    anyk = [z3.Or([acc[n][k] for (n, _, _) in rules]) for k in range(M + 3)]
     for tok, ast in LANGS.items():
         t0 = time.time()
         ml = nfa.from_ast(ast, lexer_rules={}).eps_free()
@@ -44,8 +44,8 @@ def lemma(rep, M):
         for n in range(1, M + 1):
             # s = c[:n] in the print language, c[n] a context character, everything after irrelevant
             inl = accl[n]
-            ctx = z3.Or([cs[n] == c for c in CONTEXT])
-            longer = z3.Or([anyk[k] for k in range(n + 1, M + 2)])
+            ctx = z3.Or([cs[n] == c for c in CONTEXT] + [z3.And(cs[n] == 44, cs[n + 1] == 32)])
+            longer = z3.Or([anyk[k] for k in range(n + 1, M + 3)])
             earlier = []
             for (nm, _, _) in rules:
                 if nm == tok:
@@ -60,7 +60,7 @@ def lemma(rep, M):
         rep.count(r, time.time() - t0)
         rep.evaluations += 1
         rep.distinct.add(("lexeme-lemma", tok))
-        name = "O2 lexeme lemma: every printed %s text (<= %d chars) followed by , ) ] space or newline is one %s token" % (tok.lower(), M, tok)
+        name = "O2 lexeme lemma: every printed %s text (<= %d chars) followed by ', ' ) ] space or newline is one %s token" % (tok.lower(), M, tok)
         if str(r) == "sat":
             mdl = sol.model()
             s = "".join(chr(mdl.eval(c, model_completion=True).as_long()) for c in cs)
@@ -68,8 +68,8 @@ def lemma(rep, M):
             # replay on the real lexer: find the shortest prefix in the language whose first token is wrong
             witness = None
             for n in range(1, M + 1):
-                if n in ml.accepts_lengths([ord(ch) for ch in s[:n]]) and ord(s[n]) in CONTEXT:
-                    real = lg.real_tokens(s[:n + 1])
+                if n in ml.accepts_lengths([ord(ch) for ch in s[:n]]) and (ord(s[n]) in CONTEXT or s[n:n + 2] == ", "):
+                    real = lg.real_tokens(s[:n + 2])
                     if not real or real[0] != (lg.tok_ids[tok], s[:n]):
                         witness = (s[:n + 1], real[:2])
                         break
